@@ -81,3 +81,45 @@ def c16_inner_tanh(v):
 
 def c16_outer_tanh(x):
     return c16_inner_tanh(x) + 1.0
+
+
+@onnx_function
+def c13_leaf(v):
+    import jax.numpy as jnp
+
+    return jnp.tanh(v) * 0.5 + jnp.reshape(v, v.shape)
+
+
+@onnx_function
+def c13_mid(v):
+    return c13_leaf(v) + c13_leaf(v * 2.0)
+
+
+def c13_outer(x):
+    return c13_mid(x) * 1.5 - c13_leaf(x)
+
+
+class _C13Fault(RuntimeError):
+    pass
+
+
+@onnx_function
+def c13_raising_leaf(v):
+    from checks.c13 import Fault
+
+    raise Fault("user function raises while traced (function body)")
+
+
+def c13_outer_raising(x):
+    import jax.numpy as jnp
+
+    return c13_raising_leaf(jnp.tanh(x)) + 1.0
+
+
+@onnx_function
+def c13_mid_raising(v):
+    return c13_raising_leaf(c13_leaf(v))
+
+
+def c13_outer_nested_raising(x):
+    return c13_mid_raising(x) + c13_leaf(x)
